@@ -60,7 +60,8 @@ enum Act {
     Upgrade { known_hash: bool, by: Who },
     Migrate { well_typed: bool, by: Who },
     TransferOwnership { to: usize, by: Who },
-    /// version: 0 = same as current, 1 = the version the new code reports, 2 = a wrong one;
+    /// version: 0 = same as current, 1 = the version the new code reports, 2.. = wrong ones
+    /// (9.9.9, 0.1.5, 0.10.0, 0.2);
     /// data: 0 = well-typed, 1 = ill-typed, 2 = empty argument list
     Upgrader { version: u8, cover: Cover, data: u8, real_code: bool },
     Advance(u32),
@@ -184,9 +185,15 @@ impl Scenario for C15 {
         for (to, by) in [(1usize, Who::Owner), (0, Who::Owner), (1, Who::Other), (2, Who::Stranger), (1, Who::Nobody)] {
             v.push(Act::TransferOwnership { to, by });
         }
-        for version in 0..3u8 {
+        for version in 0..6u8 {
             for cover in [Cover::Both, Cover::UpgradeOnly, Cover::MigrateOnly, Cover::Nobody, Cover::WrongPrincipal] {
-                for data in 0..3u8 {
+                if version >= 3 && cover != Cover::Both {
+                    continue;
+                }
+                for data in 0..4u8 {
+                    if version >= 3 && data != 0 {
+                        continue;
+                    }
                     v.push(Act::Upgrader { version, cover, data, real_code: false });
                     if ctx.is_dummy {
                         v.push(Act::Upgrader { version, cover, data, real_code: true });
@@ -281,7 +288,10 @@ impl Scenario for C15 {
                 let requested = match version {
                     0 => current.clone(),
                     1 => new_reports.clone(),
-                    _ => "9.9.9".to_string(),
+                    2 => "9.9.9".to_string(),
+                    3 => "0.1.5".to_string(),
+                    4 => "0.10.0".to_string(),
+                    _ => "0.2".to_string(),
                 };
                 let hash = if *real_code { ctx.dummy_hash } else { sha256(b"") };
                 // migration data: the real dummy.wasm expects a string, native contracts expect ()
@@ -289,7 +299,9 @@ impl Scenario for C15 {
                 let argv: Vec<Val> = match data {
                     0 => vec![good],
                     1 => vec![w.v(5u32), w.v(6u32)],
-                    _ => vec![],
+                    2 => vec![],
+                    // a single unit value: well-typed for the native contracts, ill-typed for dummy.wasm
+                    _ => vec![Val::VOID.to_val()],
                 };
                 let args: soroban_sdk::Vec<Val> = soroban_sdk::Vec::from_slice(env, &argv);
                 let call_args = [ctx.target.to_val(), to_val(env, &sstr(&requested)), to_val(env, &sbytes(&hash)), args.to_val()];
@@ -306,7 +318,8 @@ impl Scenario for C15 {
                 out.accepted = call.ok;
                 // complete success needs: requested version differs from the old one and equals what
                 // the new code reports, both steps authorised by the owner, well-typed data
-                let want = requested != current && requested == new_reports && *cover == Cover::Both && *data == 0;
+                let data_ok = *data == 0 || (*data == 3 && !*real_code);
+                let want = requested != current && requested == new_reports && *cover == Cover::Both && data_ok;
                 out.expect(call.ok == want, "upgrader.outcome", || {
                     format!("{:?} (requested {}, old {}, new code reports {}): ok={} ({}), model {}", a, requested, current, new_reports, call.ok, call.err, want)
                 });
